@@ -74,10 +74,19 @@ def field_sort(name):
 
 class Effect:
     """entry of the ghost effect trace; `inner` lists the effect names a loop may have produced (loop summary)"""
-    __slots__ = ("name", "args", "lineno", "st", "res", "inner")
+    __slots__ = ("name", "args", "lineno", "st", "res", "inner", "guard", "orig")
 
-    def __init__(self, name, args, lineno, st, res=None, inner=()):
+    def __init__(self, name, args, lineno, st, res=None, inner=(), guard=None, orig=None):
         self.name, self.args, self.lineno, self.st, self.res, self.inner = name, args, lineno, st, res, tuple(inner)
+        self.guard = guard      # z3 Bool: the effect happened on this (merged) path iff guard; None = always
+        self.orig = orig or self
+
+    def guarded(self, g):
+        ng = g if self.guard is None else z3.And(self.guard, g)
+        return Effect(self.name, self.args, self.lineno, self.st, self.res, self.inner, ng, self.orig)
+
+    def g(self):
+        return z3.BoolVal(True) if self.guard is None else self.guard
 
 
 class State:
